@@ -67,10 +67,12 @@ class Assembly:
 
 
 def gen_assembly(rng, max_cells=8, dims=(3, 3, 2), p_chop=0.35, conflict_bias=0.0, jitter=True, multi=0.2,
-                 count_only=True):
+                 count_only=True, sparse=False, min_cells=1):
+    """sparse=True: well-posed placements with exactly ONE chop per family (a count has to travel through the whole
+    family, several passes of the propagation loop, directions of one block completed in different passes)."""
     nx, ny, nz = dims
     allc = [(i, j, k) for i in range(nx) for j in range(ny) for k in range(nz)]
-    n = rng.randint(1, min(max_cells, len(allc)))
+    n = rng.randint(min(min_cells, len(allc)), min(max_cells, len(allc)))
     # grow a mostly connected set (edge-only and corner contacts arise at the fringe); sometimes disconnected
     cells = [rng.choice(allc)]
     while len(cells) < n:
@@ -111,7 +113,7 @@ def gen_assembly(rng, max_cells=8, dims=(3, 3, 2), p_chop=0.35, conflict_bias=0.
 
     mode = rng.random()
     fams = families(asm)
-    if mode < 0.1:
+    if mode < 0.1 and not sparse:
         # unstructured placement
         for b in range(len(cells)):
             for a in range(3):
@@ -122,9 +124,11 @@ def gen_assembly(rng, max_cells=8, dims=(3, 3, 2), p_chop=0.35, conflict_bias=0.
     # well-posed: every family gets 1..3 agreeing chops
     for fam in fams:
         tot = rng.choice(counts_pool) + rng.choice([0, 0, 2])
-        for x in rng.sample(fam, min(len(fam), rng.choice([1, 1, 1, 2, 3]))):
+        for x in rng.sample(fam, min(len(fam), 1 if sparse else rng.choice([1, 1, 1, 2, 3]))):
             asm.chops[x] = one_chop(tot)
-    asm.mode = "wellposed"
+    asm.mode = "sparse" if sparse else "wellposed"
+    if sparse and mode < 0.8:
+        return asm
     if mode < 0.1 + conflict_bias + 0.2:
         # one conflicting chop somewhere in a family with at least two axes
         big = [f for f in fams if len(f) >= 2]
